@@ -25,6 +25,10 @@ Results, for EVERY string of code points (valid or not), `n` = its length:
   `6·len + 6` (examples: 19 steps per name, 19 per oid, 12 per code point of a description);
 * with the charges: at most `2301723·(n+1)³`, `10935246·(n+1)³`, `1883624·(n+1)³` — the cubic term
   is the description pattern alone.
+
+Fidelity caveat (second statement audit, A2): `int()` of a SYNTAX length with more than 4300 digits raises ValueError on CPython >= 3.11 where
+`parseAT` accepts; C17 permits ValueError.  "Same result" below is about `parseOC / parseAT / parseDCR`.  The two `split` rows of the charging
+table count the scan OR the copy (a factor <= 2 below what CPython touches); the cubic theorems instantiate the pattern coefficients as numerals.
 -/
 import Verif.Model.SchemaCost
 import Verif.Model.SchemaScanCost
